@@ -4,7 +4,7 @@
    The order / equality of types is structural in the model (the code compares TMR hashes);
    the order on types is a premise of the cmp theorems: any total order whose Eq is equality. *)
 From RS Require Import Lib.Tac Lib.Outcome Lib.Bits Ty.Ty
-  Value.ValueModel Value.ValueBits Value.ValueRefine Value.ValueCons Value.ValueEq.
+  Value.ValueModel Value.ValueBits Value.ValueRefine Value.ValueCons Value.ValueEq Value.ValueWords Value.ValueWord.
 Import ListNotations.
 Local Open Scope N_scope.
 
@@ -89,3 +89,49 @@ Example C11_dirty_padding_witness :
   eq_raw witness_dirty witness_clean = Ok false /\
   v_eq witness_dirty witness_clean = Ok true.
 Proof. exact eq_raw_dirty_padding. Qed.
+
+(* ---- Word {value, n} with derived PartialEq / Ord / Hash (phase 2; model Value/ValueWord.v) ----
+   WFW w := WF (w_value w) /\ vty (w_value w) = word_ty (w_n w) /\ w_n w < 32 *)
+
+(* the derived == of Word is the == of the underlying Value, hence semantic: true exactly for the
+   same n and the same denoted word *)
+Theorem C11_word_eq_iff : forall a b, WFW a -> WFW b ->
+  (w_eq a b = Ok true <-> v_eq (w_value a) (w_value b) = Ok true) /\
+  (w_eq a b = Ok true <-> w_n a = w_n b /\ absv (w_value a) = absv (w_value b)).
+Proof. exact word_eq_iff. Qed.
+Print Assumptions C11_word_eq_iff.
+
+(* the derived order is the order of the values (the second key n never decides) *)
+Theorem C11_word_cmp_delegates : forall (tcmp : ty -> ty -> comparison) a b,
+  (forall x y, tcmp x y = Eq <-> x = y) -> WFW a -> WFW b ->
+  w_cmp tcmp a b = v_cmp tcmp (w_value a) (w_value b).
+Proof. exact word_cmp_delegates. Qed.
+Print Assumptions C11_word_cmp_delegates.
+
+Theorem C11_word_hash_eq : forall a b, WFW a -> WFW b -> (w_eq a b = Ok true <-> w_hash a = w_hash b).
+Proof. exact word_hash_eq. Qed.
+Print Assumptions C11_word_hash_eq.
+
+(* where Words come from: Value::to_word, the integer constructors, Word::product *)
+Theorem C11_to_word_spec : forall v, WF v ->
+  match to_word v with
+  | Some w => w_value w = v /\ WFW w
+  | None => forall k, (k < 32)%nat -> vty v <> word_ty k
+  end.
+Proof. exact to_word_spec. Qed.
+Print Assumptions C11_to_word_spec.
+
+Theorem C11_word_int_WFW : forall k n v, (k <= 7)%nat -> v_word_int k n = Ok v ->
+  WFW (mkW v (N.of_nat k)) /\ absv v = word_sval k (bits_be (2 ^ k) n).
+Proof. exact word_int_WFW. Qed.
+Print Assumptions C11_word_int_WFW.
+
+Theorem C11_word_product : forall a b, WFW a -> WFW b ->
+  match w_product a b with
+  | Ok (Some w) => WFW w /\ w_n w = w_n a + 1 /\ w_n a = w_n b /\
+                   vbits (w_value w) = vbits (w_value a) ++ vbits (w_value b)
+  | Ok None => w_n a <> w_n b \/ 30 <= w_n a
+  | _ => False
+  end.
+Proof. exact w_product_spec. Qed.
+Print Assumptions C11_word_product.
